@@ -677,7 +677,7 @@ impl Runner {
         let nodes = &nodes[..];
         tree::materialize(&self.src, nodes).expect("materialize source tree");
         // the projection of what is really there is what counts
-        self.src_tree = tree::project(&self.src).expect("project source");
+        self.src_tree = tree::project_source(&self.src).expect("project source");
         self.log.emit(json!({"ev": "src", "tree": tree::tree_json(&self.src_tree)}));
     }
 
@@ -701,7 +701,7 @@ impl Runner {
         copy_dir(&dir, &self.arch).expect("restore saved archive");
         if t != self.src_tree {
             tree::materialize(&self.src, &t).expect("re-materialize");
-            self.src_tree = tree::project(&self.src).unwrap();
+            self.src_tree = tree::project_source(&self.src).unwrap();
         }
         *self.session.lock().unwrap() = None;
         self.log.emit(json!({"ev": "reset"}));
